@@ -222,7 +222,7 @@ PROPS = {
         'proved_part': 'Verus: NonEmptyLines::next (U4) returns the next non-empty line without its \\n / \\r\\n, the right LineEnding, advances past it; None iff only empty '
                        'lines remain; every slice on a char boundary; terminates. unfill (U18), for every text — the structural half of the statement: the indents consist '
                        'only of prefix characters; the initial indent is a prefix of the first line, the subsequent indent of every later line; the returned text contains no '
-                       'line break other than one final line ending; the reported line ending is CRLF exactly when some ending was seen and all seen were CRLF; and every '
+                       'line break other than one final line ending; the reported line ending is CRLF exactly when some ending was seen and all seen were CRLF; the returned width is the display width of the widest line (max over str::lines); and every '
                        'slice taken in the second loop is in range and on a char boundary (NonEmptyLines yields exactly the non-empty elements of text.lines(): lemma '
                        'nel_is_filtered_lines over the byte-level definitions of both).',
         'bounded_part': 'BEC: the round trip with fill (relational over two calls: unfill(fill(t)) recovers text, indents, width, line ending) and the structural half again by execution.',
